@@ -85,12 +85,22 @@ def make_case(rng, i):
     twin = asyncify(rng, spec, mode)
     if twin is None:
         return None
+    certain = any(g.get("async") for g in twin["guards"].values()) or any(
+        cb["async"] and cb["provider"] == "sm" and cb["kind"] == "method" and cb["name"] in
+        ("before_transition", "on_transition", "after_transition", "on_enter_state", "on_exit_state") for cb in twin["cbs"].values())
+    if certain and rng.random() < 0.25:
+        # some asynchronous callbacks are plain functions returning a Future (ensure_future / gather style);
+        # (only when another, certainly registered, coroutine function keeps the machine on the async engine)
+        for cb in twin["cbs"].values():
+            if cb["async"] and cb["kind"] in ("method", "func") and not cb.get("sigdeco") and not (
+                    cb["provider"] == "sm" and cb["name"].endswith(("_transition", "_state"))) and rng.random() < 0.4:
+                cb["afuture"] = True
     if rng.random() < 0.2:
         # every coroutine callable of the twin is a coroutine-function WRAPPER (functools.wraps) around
         # a plain function returning an awaitable: asynchronous for the caller, plain when unwrapped
         for grp in (twin["cbs"], twin["guards"], twin["validators"]):
             for x in grp.values():
-                if x.get("async") and x.get("kind") not in ("lambda", "prop", "attr") and not x.get("sigdeco"):
+                if x.get("async") and x.get("kind") not in ("lambda", "prop", "attr") and not x.get("sigdeco") and not x.get("afuture"):
                     x["awrap"] = True
     # H7: nested sends only in callbacks that are coroutines in the twin (same scripts on both sides)
     for c, cb in twin["cbs"].items():
